@@ -51,6 +51,29 @@ var (
 	dataURIbase64Prefix       = regexp.MustCompile(`^data:[^,]*;base64,`)
 )
 
+// voidElements are the HTML elements that never have content or an end tag
+// (including the obsolete ones).
+var voidElements = map[string]struct{}{
+	"area":     {},
+	"base":     {},
+	"basefont": {},
+	"bgsound":  {},
+	"br":       {},
+	"col":      {},
+	"embed":    {},
+	"frame":    {},
+	"hr":       {},
+	"img":      {},
+	"input":    {},
+	"keygen":   {},
+	"link":     {},
+	"meta":     {},
+	"param":    {},
+	"source":   {},
+	"track":    {},
+	"wbr":      {},
+}
+
 // Sanitize takes a string that contains a HTML fragment or document and applies
 // the given policy allowlist.
 //
@@ -277,8 +300,12 @@ func (p *Policy) sanitize(r io.Reader, w io.Writer) error {
 				aa, matched := p.matchRegex(token.Data)
 				if !matched {
 					if _, ok := p.setOfElementsToSkipContent[token.Data]; ok {
-						skipElementContent = true
-						skippingElementsCount++
+						// A void element has no content and no end tag, so
+						// it cannot open a region of skipped content
+						if _, void := voidElements[token.Data]; !void {
+							skipElementContent = true
+							skippingElementsCount++
+						}
 					}
 					if p.addSpaces {
 						if _, err := buff.WriteString(" "); err != nil {
@@ -350,9 +377,11 @@ func (p *Policy) sanitize(r io.Reader, w io.Writer) error {
 					}
 				}
 				if _, ok := p.setOfElementsToSkipContent[token.Data]; ok && !match {
-					skippingElementsCount--
-					if skippingElementsCount == 0 {
-						skipElementContent = false
+					if _, void := voidElements[token.Data]; !void {
+						skippingElementsCount--
+						if skippingElementsCount == 0 {
+							skipElementContent = false
+						}
 					}
 				}
 				if !match {
